@@ -23,6 +23,7 @@ import CtyModel.Lemmas.WalkPre
 import CtyModel.Lemmas.WalkSteps
 import CtyModel.Lemmas.WalkPathSet
 import CtyModel.Lemmas.WalkTrans
+import CtyModel.Lemmas.WalkReplace
 namespace CtyModel
 namespace C19
 open Walk
@@ -202,6 +203,31 @@ theorem transform_id_schedule_indep {X : SetOracle} (hX : IterPerm X) {σ σ' : 
   rw [h1, h2]
   exact ⟨rfl, p1.trans p2.symm⟩
 
+
+/-! ## …and lets a callback replace any member without disturbing the others -/
+
+/-- **Replace one member.**  Let the callback return `x` — any value of the
+member's type — at the path of position `r0` (not inside a set) and return what
+it is given at the path of every other position (it may depend on the calls made
+so far in any other way).  Then for every schedule `σ`, `Transform` succeeds and
+returns `replaceAt X v r0 x`: the value in which every container on the way to
+`r0` is the same container (same type, same marks, same other members) around
+the changed member.  In that result the member at `r0` is `x`, and every
+position that is neither above nor below `r0` holds the member it held. -/
+theorem transform_replace_one {X : SetOracle} (hX : IterPerm X) {σ : Sched} (hσ : SchedOk σ)
+    (cb : TCb) (v x n : Value) (r0 : Pos) (hg : Good X v)
+    (hn : nodeAt X v r0 = some n) (hns : noSetAt X v r0 = true) (hx : x.ty = n.ty)
+    (hrep : ∀ q0, pathAt X v r0 = some q0 → ∀ log v', cb log q0 v' = .ok x)
+    (hid : ∀ r q, r ≠ r0 → pathAt X v r = some q → ∀ log v', cb log q v' = .ok v') :
+    ∃ log, transform X σ cb v = (log, .ok (replaceAt X v r0 x)) ∧
+      nodeAt X (replaceAt X v r0 x) r0 = some x ∧
+      ∀ r, ¬ r0 <+: r → ¬ r <+: r0 → nodeAt X (replaceAt X v r0 x) r = nodeAt X v r := by
+  obtain ⟨evs, hev⟩ := transformFuel_replace hX hσ cb x (v.v.depth + 1) v (by omega) hg r0 [] n hn hns hx
+    (by simpa using hrep) (by simpa using hid)
+  refine ⟨evs, ?_, nodeAt_replaceAt_self hX r0 v x n hg.shaped hn hns hx,
+    nodeAt_replaceAt_other hX r0 v x n hg.shaped hn hns hx⟩
+  simp only [transform, transformWith, hev, List.nil_append]
+
 /-! ## path sets behave as mathematical sets of paths -/
 
 /-- **`pathSetRules` is lawful** on paths whose index keys are plain known numbers
@@ -293,6 +319,26 @@ example : Good X1 sample :=
     exact ⟨rfl, rfl⟩⟩
 example : SchedOk Sched.sorted ∧ SchedOk (fun _ ns => ns.reverse) :=
   ⟨schedOk_sorted, fun _ ns => List.reverse_perm ns⟩
+
+/-- a callback that replaces the second element of a list, and a value for it -/
+def sampleList : Value := ⟨.list .string, .seq [.s "a", .s "b"]⟩
+def sampleCb : TCb := fun _ p w =>
+  match p with
+  | [.index ⟨_, .n (.fin _ 1 0 _)⟩] => .ok ⟨.string, .s "z"⟩
+  | _ => .ok w
+
+example : Good X0 sampleList ∧ nodeAt X0 sampleList [1] = some ⟨.string, .s "b"⟩ ∧
+    noSetAt X0 sampleList [1] = true :=
+  ⟨⟨by decide, by decide, by simp [sampleList, SetsStable, SetsStableAll]⟩, rfl, by decide⟩
+example : ∀ q0, pathAt X0 sampleList [1] = some q0 → ∀ log v', sampleCb log q0 v' = .ok ⟨.string, .s "z"⟩ := by
+  intro q0 h log v'
+  have : q0 = [.index (Value.intVal 1)] := by
+    have h' : some [PathStep.index (Value.intVal 1)] = some q0 := h
+    exact (Option.some.inj h').symm
+  subst this
+  rfl
+example : (transform X0 Sched.sorted sampleCb sampleList).2 =
+    .ok ⟨.list .string, .seq [.s "a", .s "z"]⟩ := by rfl
 
 end C19
 end CtyModel
